@@ -32,7 +32,7 @@ class TaskScenario(ScenarioData):
         self._lastBookedSlot: Optional[int] = None
         # Slot that contains the dependency bound; the intra-slot start offset applies there only
         self._offsetSlotIdx: Optional[int] = None
-        # Exact dependency bound of a forward-scheduled task (may lie inside a slot)
+        # Exact dependency bound (forward) or derived deadline (backward); may lie inside a slot
         self._boundDate: Optional[datetime] = None
 
         # Ensure required attributes exist
@@ -594,6 +594,8 @@ class TaskScenario(ScenarioData):
                             latest_end = succ_start
 
                     end_date = latest_end
+                    # Deadline derived from successors / project end (used by milestones)
+                    self._boundDate = latest_end
 
                 if end_date:
                     # For ALAP, start from the last working slot BEFORE the end date
@@ -740,8 +742,9 @@ class TaskScenario(ScenarioData):
                 if end_date:
                     self.property[("start", self.scenarioIdx)] = end_date
                 else:
+                    # No end date - the milestone sits exactly at its deadline
                     slot_idx = self.currentSlotIdx if self.currentSlotIdx is not None else 0
-                    date = self.project.idxToDate(slot_idx)
+                    date = self._boundDate if self._boundDate is not None else self.project.idxToDate(slot_idx)
                     self.property[("start", self.scenarioIdx)] = date
                     self.property[("end", self.scenarioIdx)] = date
             return False
